@@ -455,7 +455,7 @@ func putSummary(puts [][]*operation.AnchoredOperation) string {
 var typeRank = map[string]int{"create": 0, "recover": 1, "update": 2, "deactivate": 3}
 
 func TestTransactionsWithFaults(t *testing.T) {
-	ev.Rule(chkTxn, "rapid sequences of 1-8 transactions: valid (files written by the real handler for a generated batch, possibly with repeated suffixes queued), unreadable (malformed anchor string, missing file, corrupt file), duplicate-carrying (stub provider returning one suffix twice), a protocol version the protocol client cannot resolve, a namespace without protocol client, a second registered namespace with its own operation store (runs of equal kinds and versions are frequent); distinct time / number / version / canonical / equivalent references; processed through the real Observer (drawn notification slicing, completion via a sentinel transaction) and directly through TxnProcessor.Process; for each sequence EVERY fault position is enumerated: each CAS read k, each OpStore.Put call k, each unpublished DeleteAll call k, plus the fault-free run; oracle (store-state): the log of successful atomic writes == one write per good, un-faulted transaction, in order, holding exactly the first operation per suffix, each stamped with the transaction's time, number, protocol version, canonical and equivalent references; nothing for bad transactions; non-trivial = a bad transaction followed by a good one, or a fault, or a duplicate suffix")
+	ev.Rule(chkTxn, "rapid sequences of 1-8 transactions: valid (files written by the real handler for a generated batch, possibly with repeated suffixes queued), unreadable (malformed anchor string, missing file, corrupt file: junk, gzip stream cut in its data or trailer, wrong CRC / length, truncated second member), duplicate-carrying (stub provider returning one suffix twice), a protocol version the protocol client cannot resolve, a namespace without protocol client, a second registered namespace with its own operation store (runs of equal kinds and versions are frequent); distinct time / number / version / canonical / equivalent references; processed through the real Observer (drawn notification slicing, completion via a sentinel transaction) and directly through TxnProcessor.Process; for each sequence EVERY fault position is enumerated: each CAS read k, each OpStore.Put call k, each unpublished DeleteAll call k, plus the fault-free run; oracle (store-state): the log of successful atomic writes == one write per good, un-faulted transaction, in order, holding exactly the first operation per suffix, each stamped with the transaction's time, number, protocol version, canonical and equivalent references; nothing for bad transactions; non-trivial = a bad transaction followed by a good one, or a fault, or a duplicate suffix")
 	ev.Rapid(t, chkTxn, 150, 1500, func(t *rapid.T) {
 		code := rapid.SampledFrom([]uint64{asm.SHA256, asm.SHA512}).Draw(t, "hash")
 		c := &Case{Code: code, Files: map[string][]byte{}, MinGenesis: uint64(rapid.SampledFrom([]int{0, 10}).Draw(t, "minGenesis"))}
@@ -516,7 +516,26 @@ func TestTransactionsWithFaults(t *testing.T) {
 					as = append(as, a)
 				}
 				sort.Strings(as)
-				files[as[rapid.IntRange(0, len(as)-1).Draw(t, "corrupt")]] = []byte(rapid.SampledFrom([]string{"", "not gzip", "\x1f\x8b\x08\x00garbage"}).Draw(t, "junk"))
+				addr := as[rapid.IntRange(0, len(as)-1).Draw(t, "corrupt")]
+				orig := files[addr]
+				switch rapid.IntRange(0, 7).Draw(t, "corruption") {
+				case 0, 1, 2:
+					files[addr] = []byte(rapid.SampledFrom([]string{"", "not gzip", "\x1f\x8b\x08\x00garbage"}).Draw(t, "junk"))
+				case 3: // gzip stream cut inside its trailer: all content is delivered before the error
+					files[addr] = append([]byte{}, orig[:len(orig)-rapid.IntRange(1, 7).Draw(t, "trailerCut")]...)
+				case 4: // cut inside the deflate data
+					files[addr] = append([]byte{}, orig[:len(orig)/2+rapid.IntRange(0, len(orig)/4).Draw(t, "dataCut")]...)
+				case 5: // wrong CRC
+					b := append([]byte{}, orig...)
+					b[len(b)-6] ^= 0x5a
+					files[addr] = b
+				case 6: // wrong length field
+					b := append([]byte{}, orig...)
+					b[len(b)-1] ^= 0x01
+					files[addr] = b
+				default: // a second, truncated member after the genuine one
+					files[addr] = append(append([]byte{}, orig...), orig[:len(orig)/2]...)
+				}
 			case "duplicates":
 				tx.Anchor = fmt.Sprintf("3.dup-%d", i)
 				tx.Dup = []OpID{{"update", "sfx-a"}, {"create", "sfx-b"}, {"deactivate", "sfx-a"}}
